@@ -369,22 +369,10 @@ func compareALMPDigits(a, b string) int {
 		return 1
 	}
 
-	// Convert to integers for comparison
-	aNum, aErr := strconv.ParseUint(a, 10, 64)
-	bNum, bErr := strconv.ParseUint(b, 10, 64)
-
-	if aErr == nil && bErr == nil {
-		if aNum < bNum {
-			return -1
-		}
-		if aNum > bNum {
-			return 1
-		}
-		return 0
-	}
-
-	// Fallback for very large numbers that don't fit in uint64
-	// Compare by length first (longer number is larger)
+	// Compare numerically without a size limit: leading zeros are insignificant,
+	// then the longer run is the larger number
+	a = strings.TrimLeft(a, "0")
+	b = strings.TrimLeft(b, "0")
 	if len(a) < len(b) {
 		return -1
 	}
